@@ -430,8 +430,11 @@ def gene_clusters(ctx, quick):
 # ---------------------------------------------------------------------------------------------- 4. pipeline
 PRE_PIPE = PRE + """
 (* ((kind, delta, absd), annotation per chromosome, processed records, lines of the count file) *)
-Definition T := ((Z * Z * Z) * list (Z * list isoform) * list record * list (frow * Z * Z * Z))%type.
-Definition fco (c:T) := let '(cfg, ann, recs, rows) := c in let '(kd, d, absd) := cfg in feature_counts_ok (kd_of kd) d absd ann recs rows.
+(* a record also carries the gene lists of the GeneInfo objects it was profiled with (several when its alignment fell into several sub-regions of a split cluster);
+   the property (fco) ignores them *)
+Definition T := ((Z * Z * Z) * list (Z * list isoform) * list (record * list (list Z)) * list (frow * Z * Z * Z))%type.
+Definition fco (c:T) := let '(cfg, ann, recs, rows) := c in let '(kd, d, absd) := cfg in feature_counts_ok (kd_of kd) d absd ann (map fst recs) rows.
+Definition fco_region (c:T) := let '(cfg, ann, recs, rows) := c in let '(kd, d, absd) := cfg in feature_counts_region_ok (kd_of kd) d absd ann recs rows.
 """
 
 PRE_TRACE = PRE + """
@@ -557,8 +560,9 @@ def pipeline(ctx, quick):
                              args=["--bam", b["bam"], "--reference", b["fasta"], "--genedb", b["gtf"], "--data_type", dt] + (["--matching_strategy", strat] if strat else []) + common + extra))
         bjob("default/file-groups", None, ["--read_group", "file:%s:0:1" % gtab], lambda n: btruth.get(n, "NA"))
         bjob("precise/threads2", "precise", ["--threads", "2"], None, hashseed="3")
+        bjob("loose/high_memory", "loose", ["--high_memory"], None, hashseed="5")
         if not quick:
-            bjob("exact", "exact", [], None); bjob("loose/high_memory", "loose", ["--high_memory"], None, hashseed="5"); bjob("pacbio", None, [], None, dt="pacbio_ccs")
+            bjob("exact", "exact", [], None); bjob("pacbio", None, [], None, dt="pacbio_ccs")
         worlds = [11] + ([] if quick else [300 + ctx.seed, 400 + ctx.seed])
         for wi, ws in enumerate(worlds):
             wd = os.path.join(root, "w%d" % wi); w, isoforms, genes = c13_world(ws, random.Random(ws * 7 + 1)); paths = write_c13_world(w, isoforms, genes, wd)
@@ -590,7 +594,8 @@ def pipeline(ctx, quick):
                 t = trace.get(key[:3])
                 if t: pa, pt = t[0]["polya"], t[0]["polyt"]
                 else: pa, pt = -1, -1; missing += 0 if l["assignment_type"] == "intergenic" else 1
-                recs.append(dict(read_id=l["read_id"], chr=l["chr"], exons=l["exons"], polya=pa, polyt=pt, type=l["assignment_type"]))
+                alts = sorted(set(tuple(sorted(x["genes"])) for x in (t or [])))
+                recs.append(dict(read_id=l["read_id"], chr=l["chr"], exons=l["exons"], polya=pa, polyt=pt, type=l["assignment_type"], alts=alts))
             if missing:
                 ctx.broken("pipeline:trace", "run %s: %d genic records of read_assignments.tsv have no traced construct_profiles call" % (j["name"], missing)); continue
             tr_recs = [r for l in trace.values() for r in l]
@@ -619,17 +624,24 @@ def pipeline(ctx, quick):
                     ctx.violation(None, "%s has a line for a chromosome / gene that is not in the annotation" % fn, dict(rep, line=unknown[0])); continue
                 term = "((((%d, %d, %d), %s), %s), %s)" % (kd, delta, ABSD,
                         tl(chrs, lambda c: "(%s, %s)" % (cz(chrc(c)), tl(ann[c], lambda i: "((%s, %s), %s)" % (cz(genec(i[1])), cz(ord(i[2])), ivl(i[3])), "isoform")), "Z * list isoform"),
-                        tl(recs, lambda r: "((((%s, %s), %s), %s), %s)" % (cz(chrc(r["chr"])), cz(grpc(grp(r))), ivl(r["exons"]), cz(r["polya"]), cz(r["polyt"])), "record"),
+                        tl(recs, lambda r: "(((((%s, %s), %s), %s), %s), %s)" % (cz(chrc(r["chr"])), cz(grpc(grp(r))), ivl(r["exons"]), cz(r["polya"]), cz(r["polyt"]),
+                                                                                tl(r["alts"], lambda a: zl([genec(g) for g in a if g in genec.m]), "list Z")), "record * list (list Z)"),
                         tl(rows, lambda r: crow(r, chrc, genec, grpc), ROWT))
                 keyc = collections.Counter((r["chr"], r["start"], r["end"], r["strand"], r["group"]) for r in rows)
                 dups = sorted(k for k, n in keyc.items() if n > 1)
-                cases.append((term, dict(rep, file=fn, delta=delta, records=len(recs), lines=len(rows), groups=sorted(set(r["group"] for r in rows)), duplicated_keys=dups[:10], n_duplicated=len(dups),
+                cases.append((term, dict(rep, file=fn, delta=delta, records=len(recs), lines=len(rows), groups=sorted(set(r["group"] for r in rows)),
+                                         records_profiled_in_several_regions=[dict(read_id=r["read_id"], exons=r["exons"], gene_lists=r["alts"]) for r in recs if len(r["alts"]) > 1][:8], duplicated_keys=dups[:10], n_duplicated=len(dups),
                                          example_duplicates=[r for r in rows if (r["chr"], r["start"], r["end"], r["strand"], r["group"]) in dups[:2]][:6])))
+        pre0 = PRE_PIPE + "Definition check (c:T) := true.\nDefinition prop := fco_region.\n"
+        mism, viol = ctx.corr("pipeline_feature_counts_by_region", pre0, cases, shard=1, nontrivial=lambda o: o["lines"] > 0, ctype="T", timeout=900)
+        bad_sum = set(id(o) for o in viol)
+        ctx.corr_report("pipeline_feature_counts_by_region", mism, viol, what="exon/intron count file of a whole run: per (chromosome, start, end, strand, group) the lines do not add up to the recount from the "
+                        "processed records and the annotation (even when a record profiled in several sub-regions is allowed to count with any of its gene lists), or a line's flags / strand / gene set differ from the annotation")
         pre1 = PRE_PIPE + "Definition check (c:T) := true.\nDefinition prop := fco.\n"
         mism, viol = ctx.corr("pipeline_feature_counts", pre1, cases, shard=1, nontrivial=lambda o: o["lines"] > 0, ctype="T", timeout=900)
-        bad_sum = set(id(o) for o in viol)
-        ctx.corr_report("pipeline_feature_counts", mism, viol, what="exon/intron count file of a whole run: per (chromosome, start, end, strand, group) the lines do not add up to the recount from the "
-                        "processed records and the annotation, or a line's flags / strand / gene set differ from the annotation")
+        # the property itself; matched to the known finding only when the region-aware recount accepts the same file and a record was profiled with differing gene lists
+        ctx.corr_report("pipeline_feature_counts", mism, viol, keyfn=lambda o: "C13:split-region-gene-info" if id(o) not in bad_sum and o["records_profiled_in_several_regions"] else None,
+                        what="exon/intron count file of a whole run: per (chromosome, start, end, strand, group) the lines do not add up to the number of processed records that contain / skip the feature")
         pre2 = PRE_PIPE + "Definition check (c:T) := true.\nDefinition prop (c:T) := rows_nodup (snd c).\n"
         mism, viol = ctx.corr("pipeline_one_line_per_feature", pre2, cases, shard=4, nontrivial=lambda o: o["lines"] > 0, ctype="T", timeout=900)
         # matched to the known finding only when the duplicated lines of a feature add up to the recount (the other correspondence accepted the same file)
@@ -643,7 +655,9 @@ def pipeline(ctx, quick):
         ctx.rule("pipeline: isoquant.py --count_exons (through a tracing wrapper that only records polyA/polyT positions and delta) on the bundled chr9 data (matching strategies = delta presets, "
                  "threads, --high_memory, group table) and on generated two-chromosome annotations with similar / contained / multi-gene features and reads that include, skip and shift "
                  "exons (RG groups); exon_counts / intron_counts and their grouped variants are recounted inside Coq from read_assignments.tsv + GTF (feature_counts_ok: lines summed per "
-                 "feature and group, flags / strand / gene set from the whole annotation); a second correspondence requires one line per feature and group")
+                 "feature and group, flags / strand / gene set from the whole annotation); a second correspondence requires one line per feature and group; "
+                 "pipeline_feature_counts_by_region is the same recount in which a record profiled with several gene lists (its alignment overlaps several sub-regions of a split cluster) may "
+                 "count with any of them: it must accept every file, and it is what separates the known finding C13:split-region-gene-info from any other miscount")
         ctx.notes.append("pipeline level: the recount (profile value of every record x feature, tallies per group, flags) is evaluated inside Coq; Python parses files, interns names and joins the traced polyA positions")
     finally:
         shutil.rmtree(root, ignore_errors=True)
